@@ -100,9 +100,21 @@ def find_fn_body(src, name, nth=0):
         raise Unsupported("fn %s not found" % name)
     m = ms[nth]
     par_end = match_brace(src, m.end() - 1, "(", ")")
-    b = src.find("{", par_end)
-    semi = src.find(";", par_end)
-    if b < 0 or (0 <= semi < b):
+    # first `{` or `;` outside brackets (a return type such as `[usize; 7]` may contain a `;`)
+    b, depth, j = -1, 0, par_end + 1
+    while j < len(src):
+        c = src[j]
+        if c in "[(":
+            depth += 1
+        elif c in "])":
+            depth -= 1
+        elif c == "{" and depth == 0:
+            b = j
+            break
+        elif c == ";" and depth == 0:
+            break
+        j += 1
+    if b < 0:
         raise Unsupported("fn %s has no body" % name)
     e = match_brace(src, b)
     return src[b + 1:e]
